@@ -236,6 +236,8 @@ fn mutate(t: &mut Tree, m: usize) {
     }
 }
 
+pub static OUTCOMES: std::sync::Mutex<std::collections::BTreeSet<String>> = std::sync::Mutex::new(std::collections::BTreeSet::new());
+
 pub fn judge(base: &Tree, muts: &[usize], scratch: &Scratch) -> Vec<Violation> {
     let mut v = Vec::new();
     let at = format!("base {} mutations {muts:?}", tree::tree_brief(base).chars().take(80).collect::<String>());
@@ -278,6 +280,12 @@ pub fn judge(base: &Tree, muts: &[usize], scratch: &Scratch) -> Vec<Violation> {
         match do_diff(&arch, 0, &src2, inc) {
             Err(e) => v.push(Violation::new("C18:diff-failed", format!("{at}: {e}"))),
             Ok(d) => {
+                {
+                    let mut sig: Vec<char> = d.iter().map(|x| x.1).collect();
+                    sig.sort();
+                    sig.dedup();
+                    OUTCOMES.lock().unwrap().insert(format!("diff classes {sig:?} include_unchanged={inc}"));
+                }
                 let want = model_diff(base, &new, inc);
                 if d != want {
                     let gd: std::collections::BTreeMap<_, _> = d.iter().cloned().collect();
@@ -365,6 +373,9 @@ pub fn run(report: &Report, budget: &Budget) {
         }
         scratches[w].clear();
     });
+    for o in OUTCOMES.lock().unwrap().iter() {
+        report.outcome(o.clone());
+    }
     report.set("states", json!(done));
     report.set("mutation_sets", json!(sets.len()));
     report.set("transitions", json!(n.load(AO::Relaxed) * 5));
